@@ -47,8 +47,6 @@ import (
 func TestSim(t *testing.T) {
 	hysim.Main(t,
 		&hysim.Harness{Name: "c13", Gen: c13Gen, Exec: c13Exec, Post: c13Post},
-		// the same workload in a race-detector build (part c13race)
-		&hysim.Harness{Name: "c13race", Gen: c13Gen, Exec: c13Exec, Post: c13Post},
 	)
 }
 
